@@ -315,7 +315,7 @@ def match_known(prop, sig):
         if f.get("status", "open") != "open" or f["property"] != prop:
             continue
         m = f["match"]
-        if all(sig.get(k) == v for k, v in m.items()):
+        if all((sig.get(k) in v) if isinstance(v, list) else (sig.get(k) == v) for k, v in m.items()):
             return f
     return None
 
